@@ -661,7 +661,6 @@ func c07primList(c *Ctx, p primInst, n int) {
 	}
 }
 
-
 // c06afterFail: Encode(M2) -> A; Encode(M1) fails (a body text too long for its prefix, after earlier body fields
 // were written); Encode(M2 again, another object with the same content) into an empty buffer must give A.
 func c06afterFail(c *Ctx, mod, tn string, key, fi int) {
@@ -749,7 +748,6 @@ func c06afterFail(c *Ctx, mod, tn string, key, fi int) {
 		}
 	}
 }
-
 
 // c06bigHistory: Encode into an empty buffer -> A; Encode of the same value into a buffer that already holds L unread
 // bytes (L symbolic, 0..2^20): same outcome, and the bytes appended behind them equal A.
